@@ -992,6 +992,20 @@ def fixed_cases(quick=True):
                                 for x, y in ((0, 0), (1, 0), (2, 1), (3, 1), (0, 2), (2, 2))] +
                                [{'kind': 'tile', 'dim': 0, 'l': 2, 'x': 1, 'y': 3, 't': T - 40},
                                 {'kind': 'tile', 'dim': 0, 'l': 2, 'x': 1, 'y': 1, 't': T + 40}]})
+    # compact cache: a meta tile (3x3 does not divide 128) that straddles the border between two bundles in x and y;
+    # decoys sit at the same position relative to their bundle, 128 columns / rows away
+    S8 = 1024          # width of a level 8 tile of the deep grid
+    for b in ('compact1', 'compact2'):
+        for (mx, my) in ((126, 126), (126, 0)):
+            cov = [mx * S8 + S8 // 2, my * S8 + S8 // 2, (mx + 2) * S8 + S8 // 2, (my + 2) * S8 + S8 // 2]
+            inside = [(mx + dx, my + dy) for dx in (0, 1, 2) for dy in (0, 1, 2)]
+            decoys = [((x + 128) % 256, y) for x, y in inside[:4]] + [(x, (y + 128) % 256) for x, y in inside[4:]] + \
+                     [((x + 128) % 256, (y + 128) % 256) for x, y in inside[::2]]
+            out.append({'backend': b, 'grid': 'deep', 'meta': [3, 3], 'guarded': True, 'concurrency': 1,
+                        'task': {'levels': [8], 'T': T, 'all': True, 'complete': False, 'cov': cov},
+                        'entries': [{'kind': 'tile', 'dim': 0, 'l': 8, 'x': x, 'y': y, 't': T - 40}
+                                    for x, y in sorted(set(inside + decoys))] +
+                                   [{'kind': 'tile', 'dim': 0, 'l': 7, 'x': 63, 'y': 63, 't': T - 40}]})
     # a newer tile in a directory that is older than the remove time
     for b in ('file:tc', 'file:tms'):
         out.append({'backend': b, 'grid': 'g3', 'meta': [2, 2], 'guarded': True, 'concurrency': 1, 'dir_t': T - 400,
@@ -1178,6 +1192,26 @@ def run(ctx):
                     cases.append(gen_case(rng, backend=b, force=force))
     for _ in range(ctx.n(120, 1500)):
         cases.append(gen_case(rng))
+    # compact caches: meta tiles that straddle a bundle border (meta size not dividing 128, levels with > 128 tiles)
+    for _ in range(ctx.n(2, 24)):
+        L = rng.choice([8, 8, 9])
+        span, n = 2 ** (18 - L), 2 ** L
+        m = rng.choice([3, 5, 6, 7])
+        mains = []
+        for axis in range(2):
+            k = rng.choice([128] if L == 8 else [128, 256, 384]) if rng.random() < 0.8 else rng.randrange(3, n - 8)
+            mains.append(((k - 1) // m) * m)
+        mx, my = mains
+        cov = [mx * span + span // 2, my * span + span // 2, (mx + m - 1) * span + span // 2, (my + m - 1) * span + span // 2]
+        inside = [(mx + dx, my + dy) for dx in range(m) for dy in range(m) if mx + dx < n and my + dy < n]
+        inside = rng.sample(inside, min(len(inside), 8))
+        decoys = [((x + rng.choice([128, n - 128])) % n, y) for x, y in inside[:3]] + \
+                 [(x, (y + 128) % n) for x, y in inside[3:6]] + [((x + 128) % n, (y + 128) % n) for x, y in inside[5:]]
+        cases.append({'backend': rng.choice(['compact1', 'compact2']), 'grid': 'deep', 'meta': [m, m], 'guarded': True,
+                      'concurrency': rng.choice([1, 2]),
+                      'task': {'levels': [L], 'T': 40 * Q, 'all': True, 'complete': False, 'cov': cov},
+                      'entries': [{'kind': 'tile', 'dim': 0, 'l': L, 'x': x, 'y': y, 't': 120}
+                                  for x, y in sorted(set(inside + decoys))]})
     run_cases(ctx, cases, 'generated', budget=ctx.n(100, 780))
     # 2b. several tasks in one cleanup() call (correspondence of the task loop; single-task oracle not applied)
     terms, descr = [], []
